@@ -113,10 +113,14 @@ fn generate(rng: &mut Rng) -> ExInstance {
     let mut content = String::new();
     if rng.chance(1, 4) { content.push_str("# generated instance\n"); }
     content.push_str(&format!("{n}\n"));
+    // the reader skips `#` comments and blank lines wherever they are: also between the sections and inside the matrix
+    if rng.chance(1, 6) { content.push_str(if rng.chance(1, 2) { "# distance matrix\n" } else { "\n" }); }
     for i in 0..n {
         let row: Vec<String> = (0..n).map(|j| num(if i == j && i > 0 { diag } else { d[i][j] }, style)).collect();
         content.push_str(&row.join(" ")); if rng.chance(1, 4) { content.push(' '); } content.push('\n');
+        if n > 2 && i + 1 < n && rng.chance(1, 40) { content.push_str("# next row\n"); }
     }
+    if rng.chance(1, 6) { content.push_str("# time windows\n"); }
     if rng.chance(1, 4) { content.push('\n'); }
     for i in 0..n { content.push_str(&format!("{}{}{}\n", num(e[i], style), if rng.chance(1, 2) { " " } else { "      " }, num(l[i], style))); }
     if rng.chance(1, 4) { content.push_str("# end\n"); }
